@@ -396,3 +396,93 @@ func init() {
 		Assumptions: commonAssume,
 	})
 }
+
+func retainScenarios(c *CheckRun) []*Scenario {
+	var out []*Scenario
+	base := cheapBig(histFamiliesW(c, true, true))
+	i := 0
+	for _, b := range base {
+		cycs := []int{0, 1, 2, 3}
+		var pick []int
+		if c.Tier == "quick" {
+			pick = []int{cycs[i%4]}
+			i++
+		} else {
+			pick = cycs
+		}
+		for _, cy := range pick {
+			bb := b
+			bb.mask = ckRetain
+			bb.probes = nil
+			spec := probeSpec(&b)
+			if cy == 1 || cy == 3 {
+				// the cycle needs a present key: take the shape of a key the history inserts
+				for _, o := range b.ops {
+					if o[0] == opInsert {
+						spec = o[1]
+					} else if o[0] == opInsertC {
+						spec = o[1] | 1<<30
+					}
+				}
+			}
+			bb.extra = []int{cy, spec}
+			s := bb.scn()
+			s.MayBeVacuous = true // e.g. a history whose deletes leave no key of that shape
+			out = append(out, s)
+		}
+	}
+	// collation (the shared collate.Buffer is part of what the tree keeps alive) and compound trees
+	for cy := 0; cy <= 3; cy++ {
+		for _, kind := range []int{14, 15, 16} {
+			k0, k1, k2 := cSpec(0, 2), cSpec(3, 2), cSpec(2, 3)
+			b := histB{kind: kind, mask: ckRetain, ops: [][2]int{{opInsert, k0}, {opInsert, k1}, {opInsert, k2}}, extra: []int{cy, []int{k0, k0, cSpec(1, 2), k1}[cy]}, label: "coll retained"}
+			s := b.scn()
+			s.Harness = "hColl"
+			out = append(out, s)
+		}
+		t0, t1 := cSpec(0, 2), cSpec(1, 2)
+		b := histB{kind: 17, mask: ckRetain, ops: [][2]int{{opInsert, t0}, {opInsert, t1}}, extra: []int{cy, []int{t0, t0, cSpec(2, 2), t1}[cy]}, label: "table retained"}
+		s := b.scn()
+		s.Harness = "hCompound"
+		out = append(out, s)
+	}
+	return out
+}
+
+func gcScenarios(c *CheckRun) []*Scenario {
+	var out []*Scenario
+	kinds := []int{0, 1, 3, 8, 12, 14}
+	for _, k := range kinds {
+		for v := 0; v <= 4; v++ {
+			n := 2
+			if k == 8 || k == 12 || k == 3 {
+				n = 1
+			}
+			if c.Tier != "quick" && (k == 0 || k == 1) {
+				n = 3
+			}
+			out = append(out, simple("hGC", fmt.Sprintf("tree %s, value type %s", kindNames[k], []string{"*int", "string", "[]int", "struct{}", "[16]uint64"}[v]), k, v, n))
+		}
+	}
+	return out
+}
+
+func init() {
+	register(&CheckSpec{
+		ID: "C17", Level: "model_checking", Summaries: true, Rule: stateRule,
+		Scenarios: retainScenarios,
+		Bounds: []string{"retained = bytes of every object reachable from the tree value (nodes, leaves, key arrays, codec scratch such as the collation buffer) plus the used length of every slice in them, in the executor's heap model with gc/amd64 sizes",
+			"obligations per history: retained after 1 warm-up cycle == retained after 3 cycles (induction over the number of cycles) for the cycles {all read-only queries, overwrite of a present key, insert-absent-then-delete, delete-present-then-reinsert}; after deleting everything retained <= empty tree + 256 bytes",
+			"histories: thinned F-short/F-long/F-num/F-fan families, collation (string/[]byte/[]rune) and compound table trees"},
+		Outside:     []string{"the real allocator's size classes and the real collector: native replay measures live heap after two forced GCs around 100000 repetitions (256 KiB slack), the verdict itself rests on the model", "memory held by sync.Pool (not reachable from the tree)"},
+		Assumptions: commonAssume,
+	})
+	register(&CheckSpec{
+		ID: "C18", Level: "model_checking", Summaries: true, Rule: stateRule,
+		Scenarios: gcScenarios,
+		Bounds: []string{"value types *int, string, []int, struct{}, [16]uint64 × trees byte-string []byte/string, uint16, int16, float32, collation string; 1-3 symbolic inserts, one overwrite, one delete, read-back by Search, All and (numeric kinds) Range",
+			"every unsafe.Pointer -> *T conversion on every path is checked against the object actually pointed to: identical type, first-field / enclosing-struct, same-size scalar, or identical flattened layout (offsets, sizes, pointer-ness) — anything else is a fault; uintptr<->unsafe.Pointer conversions and unsafe.Slice beyond the allocation are faults"},
+		Outside:     []string{"the garbage collector itself cannot be run symbolically: the claim is that the code obeys the unsafe.Pointer rules that make collector timing irrelevant, plus value integrity; native replay runs with forced collections", "larger histories"},
+		Assumptions: append([]string{"Go's precise collector is correct for programs that obey the unsafe.Pointer rules"}, commonAssume...),
+	})
+}
